@@ -213,8 +213,19 @@ def stage_hyp(ctx):
     hyp_drive(ctx, st.one_of(gen_s2p(), gen_p2s()), judge, n)
 
 
+def stage_boundary(ctx):
+    """Unit vectors at log-scale distances from the places where the projection code's own branches flip."""
+    from lib import boundary
+    anc = boundary.anchors(ctx, "proj", 200 if ctx.tier == "quick" else 1000)
+    if not anc:
+        ctx.col.count("boundary_stage_skipped")
+        return
+    strat = boundary.anchor_points(anc).map(lambda p: {"t": "s2p", "v": list(refgeo.lonlat_to_frame((p["lon"], p["lat"]))), "cls": "branch_boundary"})
+    hyp_drive(ctx, strat, judge, 1500 if ctx.tier == "quick" else 40000)
+
+
 def plan(tier):
-    return [Stage("hyp", 16, stage_hyp, cost=5)]
+    return [Stage("hyp", 16, stage_hyp, cost=5), Stage("boundary", 16, stage_boundary, cost=4)]
 
 
 def replay(rec, col):
